@@ -29,7 +29,7 @@ FORBIDDEN = re.compile(
 LEAN_MODULES = {
     "C01": ["TFV.Properties.EA", "TFV.Properties.Heap", "TFV.Properties.Src.Engine"],
     "C02": ["TFV.Properties.EA", "TFV.Properties.Src.Engine"],
-    "C03": ["TFV.Properties.EA", "TFV.Properties.Src.Engine", "TFV.Properties.Src.Skeleton"],
+    "C03": ["TFV.Properties.EA", "TFV.Properties.Src.Engine", "TFV.Properties.Src.Skeleton", "TFV.Properties.Src.GetAim"],
     "C04": ["TFV.Properties.Rng"],
     "C05": ["TFV.Properties.EA", "TFV.Properties.Src.Engine"],
     "C06": ["TFV.Properties.BinOps", "TFV.Properties.Runs", "TFV.Properties.Src.BinKernels", "TFV.Properties.Src.BinKernels2", "TFV.Properties.Src.GATrial"],
@@ -55,7 +55,7 @@ LEAN_MODULES = {
 SRC_KERNELS = {
     "C01": ["TheFittest_replace", "TheFittest_update", "termination_check", "get_remains_calls", "EA_get_fitness"],
     "C02": ["TheFittest_replace", "TheFittest_update", "termination_check", "get_remains_calls", "EA_get_fitness"],
-    "C03": ["TheFittest_replace", "TheFittest_update", "termination_check", "get_remains_calls", "EA_fit", "EA_get_fitness"],
+    "C03": ["TheFittest_replace", "TheFittest_update", "termination_check", "get_remains_calls", "EA_fit", "EA_get_fitness", "EA_get_aim"],
     "C05": ["TheFittest_replace", "TheFittest_update", "termination_check", "get_remains_calls", "EA_get_fitness"],
     "C06": ["flip_mutation", "binomialGA", "one_point_crossover", "two_point_crossover", "uniform_crossover",
             "uniform_proportional_crossover", "uniform_rank_crossover", "empty_crossover", "GA_get_new_individ_g",
